@@ -696,6 +696,24 @@ loop:
 			if okL(o.L) {
 				b.ls[o.L].setGated(true)
 			}
+		case "gate_all":
+			// one op, so that a shrunk script does not depend on which listener the loop calls first
+			for _, l := range b.ls {
+				l.setGated(true)
+			}
+		case "ungate_all":
+			for _, l := range b.ls {
+				l.setGated(false)
+			}
+			for _, l := range b.ls {
+				if l.blockedNow() {
+					b.log.add(c20Ev{K: "ERelease", L: l.id})
+					l.release()
+					if !quiet(o.K) {
+						break loop
+					}
+				}
+			}
 		case "ungate", "release":
 			if okL(o.L) {
 				if o.K == "ungate" {
@@ -1225,19 +1243,14 @@ func c20DirectedLate(id int, reps int) []*c20Case {
 		for l := 0; l < n; l++ {
 			c.Ops = append(c.Ops, c20Op{K: "reg", T: 0, L: l})
 		}
-		for l := 0; l < n; l++ {
-			c.Ops = append(c.Ops, c20Op{K: "gate", L: l})
-		}
-		c.Ops = append(c.Ops, c20Op{K: "pub", T: 0, M: 1})
+		c.Ops = append(c.Ops, c20Op{K: "gate_all"}, c20Op{K: "pub", T: 0, M: 1})
 		return c
 	}
 	finish := func(c *c20Case, n int) {
 		for l := 0; l < n; l++ {
 			c.Ops = append(c.Ops, c20Op{K: "release_cur", T: 0})
 		}
-		for l := 0; l < n; l++ {
-			c.Ops = append(c.Ops, c20Op{K: "ungate", L: l})
-		}
+		c.Ops = append(c.Ops, c20Op{K: "ungate_all"})
 		c.Ops = append(c.Ops, c20Op{K: "pub", T: 0, M: 2}, c20Op{K: "reg_idle", T: 0}, c20Op{K: "pub", T: 0, M: 3}, c20Op{K: "digest"})
 		cs = append(cs, c)
 	}
